@@ -77,14 +77,14 @@ func init() {
 	intrinsics = map[string]intrinsicFn{
 		"math.Float64bits": func(t *FnTrans, x *ssa.Call, a []Val, st *HeapState, reach string) (Val, bool) {
 			v := t.materialize(a[0], f64)
-			if v.K != VScalar || t.mode != ModeBV {
+			if v.K != VScalar || !t.mode.isBV() {
 				return Val{}, false
 			}
 			return t.float64bits(v), true
 		},
 		"math.Float64frombits": func(t *FnTrans, x *ssa.Call, a []Val, st *HeapState, reach string) (Val, bool) {
 			v := t.materialize(a[0], types.Typ[types.Uint64])
-			if v.K != VScalar || t.mode != ModeBV {
+			if v.K != VScalar || !t.mode.isBV() {
 				return Val{}, false
 			}
 			return t.float64frombits(v), true
@@ -94,12 +94,18 @@ func init() {
 			if v.K != VScalar {
 				return Val{}, false
 			}
+			if t.mode.isReal() {
+				return scalar(f64, ite(sx(">=", v.S, "0.0"), v.S, sx("-", v.S))), true
+			}
 			return scalar(f64, sx("fp.abs", v.S)), true
 		},
 		"math.IsNaN": func(t *FnTrans, x *ssa.Call, a []Val, st *HeapState, reach string) (Val, bool) {
 			v := t.materialize(a[0], f64)
 			if v.K != VScalar {
 				return Val{}, false
+			}
+			if t.mode.isReal() {
+				return scalar(bt, "false"), true
 			}
 			return scalar(bt, sx("fp.isNaN", v.S)), true
 		},
@@ -109,6 +115,9 @@ func init() {
 			if v.K != VScalar || s.K != VScalar {
 				return Val{}, false
 			}
+			if t.mode.isReal() {
+				return scalar(bt, "false"), true
+			}
 			z := t.mode.intLit64(0, 64)
 			pos := and(sx("fp.isInfinite", v.S), sx("fp.isPositive", v.S))
 			neg := and(sx("fp.isInfinite", v.S), sx("fp.isNegative", v.S))
@@ -116,12 +125,15 @@ func init() {
 		},
 		"math.Inf": func(t *FnTrans, x *ssa.Call, a []Val, st *HeapState, reach string) (Val, bool) {
 			s := t.materialize(a[0], types.Typ[types.Int])
-			if s.K != VScalar {
+			if s.K != VScalar || t.mode.isReal() {
 				return Val{}, false
 			}
 			return scalar(f64, ite(t.cmpIdx(">=", s.S, t.mode.intLit64(0, 64)), "(_ +oo 11 53)", "(_ -oo 11 53)")), true
 		},
 		"math.NaN": func(t *FnTrans, x *ssa.Call, a []Val, st *HeapState, reach string) (Val, bool) {
+			if t.mode.isReal() {
+				return Val{}, false
+			}
 			return scalar(f64, "(_ NaN 11 53)"), true
 		},
 		"math.Floor": roundIntrinsic("RTN"),
@@ -129,7 +141,7 @@ func init() {
 		"math.Trunc": roundIntrinsic("RTZ"),
 		"math.Sqrt": func(t *FnTrans, x *ssa.Call, a []Val, st *HeapState, reach string) (Val, bool) {
 			v := t.materialize(a[0], f64)
-			if v.K != VScalar {
+			if v.K != VScalar || t.mode.isReal() {
 				return Val{}, false
 			}
 			return scalar(f64, sx("fp.sqrt", "RNE", v.S)), true
@@ -176,6 +188,17 @@ func roundIntrinsic(rm string) intrinsicFn {
 		if v.K != VScalar {
 			return Val{}, false
 		}
+		if t.mode.isReal() {
+			fl := func(x string) string { return sx("to_real", sx("to_int", x)) }
+			switch rm {
+			case "RTN":
+				return scalar(types.Typ[types.Float64], fl(v.S)), true
+			case "RTP":
+				return scalar(types.Typ[types.Float64], sx("-", fl(sx("-", v.S)))), true
+			default:
+				return scalar(types.Typ[types.Float64], ite(sx(">=", v.S, "0.0"), fl(v.S), sx("-", fl(sx("-", v.S))))), true
+			}
+		}
 		return scalar(types.Typ[types.Float64], sx("fp.roundToIntegral", rm, v.S)), true
 	}
 }
@@ -201,7 +224,7 @@ func (t *FnTrans) byteAt(st *HeapState, s Val, k int) string {
 }
 
 func (t *FnTrans) endianRead(x *ssa.Call, s Val, w int, little bool, st *HeapState, reach string) (Val, bool) {
-	if s.K != VSlice || t.mode != ModeBV {
+	if s.K != VSlice || !t.mode.isBV() {
 		return Val{}, false
 	}
 	n := w / 8
@@ -232,7 +255,7 @@ func (t *FnTrans) endianRead(x *ssa.Call, s Val, w int, little bool, st *HeapSta
 }
 
 func (t *FnTrans) endianWrite(x *ssa.Call, s Val, v Val, w int, little bool, st *HeapState, reach string) (Val, bool) {
-	if s.K != VSlice || t.mode != ModeBV {
+	if s.K != VSlice || !t.mode.isBV() {
 		return Val{}, false
 	}
 	var ty types.Type
@@ -577,7 +600,7 @@ func constLen(t *FnTrans, v Val) (int, bool) {
 }
 
 func (t *FnTrans) smtConstInt(s string) (int, bool) {
-	if t.mode == ModeInt {
+	if t.mode.isInt() {
 		if n, ok := smtIntLit(s); ok && n.IsInt64() {
 			return int(n.Int64()), true
 		}
@@ -953,7 +976,7 @@ func (t *FnTrans) havocModifies(item string, pre *Env, st *HeapState, reach stri
 				o = scalar(nil, "0")
 			}
 			if o.K == VScalar && o.T != nil {
-				if _, _, isInt := intInfo(o.T); isInt && t.mode == ModeBV {
+				if _, _, isInt := intInfo(o.T); isInt && t.mode.isBV() {
 					o = scalar(nil, sx("bv2nat", o.S))
 				}
 			}
@@ -1055,6 +1078,20 @@ func (t *FnTrans) siteHook(kind string, in ssa.Instruction, b *ssa.BasicBlock, i
 		if c, ok := in.(*ssa.Call); ok {
 			for i, a := range c.Common().Args {
 				env.vars[fmt.Sprintf("arg%d", i)] = t.val(a)
+			}
+			if kind == "callret" {
+				// hook after the call: its value(s) are visible as result / resultN
+				rv := t.val(c)
+				if rv.K == VTuple {
+					for i, v := range rv.Sub {
+						env.vars[fmt.Sprintf("result%d", i)] = v
+					}
+					if len(rv.Sub) > 0 {
+						env.vars["result"] = rv.Sub[0]
+					}
+				} else {
+					env.vars["result"], env.vars["result0"] = rv, rv
+				}
 			}
 		}
 		if r, ok := in.(*ssa.Return); ok {
@@ -1210,7 +1247,7 @@ func (t *FnTrans) siteOrdinal(s *SiteSpec, kind string, in ssa.Instruction) int 
 			ok := false
 			switch x := i2.(type) {
 			case *ssa.Call:
-				if kind == "call" {
+				if kind == "call" || kind == "callret" {
 					text, ok = t.callText(x), true
 				}
 			case *ssa.Store:
@@ -1262,7 +1299,7 @@ func siteTextMatch(kind, text, want string) bool {
 	if !strings.HasPrefix(text, want) {
 		return false
 	}
-	if kind == "call" {
+	if kind == "call" || kind == "callret" {
 		return len(text) > len(want) && text[len(want)] == '('
 	}
 	return true
@@ -1282,6 +1319,9 @@ func (t *FnTrans) siteMatchesInstr(s *SiteSpec, in ssa.Instruction) bool {
 		kind = "return"
 	case *ssa.Lookup:
 		kind = "mapread"
+	}
+	if kind == "call" && s.Kind == "callret" {
+		kind = "callret"
 	}
 	if kind == "" || kind != s.Kind {
 		return false
